@@ -1135,14 +1135,32 @@ func runC14(args []string) error {
 		ops := []string{}
 		opsJS := []interface{}{}
 		poisoned := false
+		type lastW struct {
+			ti, si int
+			m      *swap.SwapStateMachine
+		}
+		last := map[string]lastW{}
 		for k := 0; k < nops; k++ {
 			switch c := r.Intn(10); {
 			case c < 5:
-				t := tables[r.Intn(len(tables))]
+				ti := r.Intn(len(tables))
+				t := tables[ti]
 				si := r.Intn(len(t.States))
-				m := realisticMachine(r, t.Type, t.Role, t.States[si], si, len(t.States))
 				id := *ids[r.Intn(len(ids))]
+				// every other write to an id that was written before keeps the state of that write and changes only
+				// the data (what the state machine does when it stores an applied message before moving on, and when
+				// recovery re-runs an action in the unchanged state)
+				lw, rewrite := last[id.String()]
+				rewrite = rewrite && r.Chance(50)
+				if rewrite {
+					ti, si, t = lw.ti, lw.si, tables[lw.ti]
+				}
+				m := realisticMachine(r, t.Type, t.Role, t.States[si], si, len(t.States))
+				if rewrite {
+					m.Current, m.Previous = lw.m.Current, lw.m.Previous
+				}
 				m.SwapId = &id
+				last[id.String()] = lastW{ti, si, m}
 				if r.Chance(6) {
 					m.SwapId = nil
 				}
